@@ -1,4 +1,5 @@
 import StraxModel.Lemmas.IntervalAlgos
+import StraxModel.Generated.OverlapIndices
 /-
   C17 — interval primitives agree with their set-theoretic definitions.
 
@@ -118,6 +119,18 @@ theorem overlap_indices_spec (a1 nA b1 nB : Int) (ha : 0 ≤ nA) (hb : 0 ≤ nB)
 theorem overlap_indices_rejects_negative (a1 nA b1 nB : Int) (h : nA < 0 ∨ nB < 0) :
     overlapIndices a1 nA b1 nB = .error Err.valueError := by
   simp [overlapIndices, h]; rfl
+
+/-- translator tie: the definition regenerated from the current Python source of `overlap_indices` (step 0 of the
+check, `Generated/OverlapIndices.lean`) is the hand-written model, so `overlap_indices_spec` holds of what the code says now -/
+theorem overlap_generated_eq_model : Generated.overlapIndices = overlapIndices := by
+  funext a1 nA b1 nB
+  unfold Generated.overlapIndices overlapIndices
+  try simp only [pure, Except.pure, throw, throwThe, MonadExceptOf.throw]
+  all_goals grind
+
+theorem overlap_indices_spec_generated (a1 nA b1 nB : Int) (ha : 0 ≤ nA) (hb : 0 ≤ nB) :
+    Generated.overlapIndices a1 nA b1 nB = .ok (overlapSpec a1 nA b1 nB) := by
+  rw [overlap_generated_eq_model]; exact overlapIndices_eq_spec a1 nA b1 nB ha hb
 
 example : overlapIndices 0 5 3 5 = .ok ((3, 5), (0, 2)) := by decide
 
